@@ -257,6 +257,21 @@ CLAIMED = {
             'Format rendering is harness code written from the layouts documented in readers.py (NDK after the obspy field '
             'positions). HORUS values are compared at single precision, the documented dtype of that reader.',
             '5/C19'),
+    'C10': ('TLA+ spec of the six catalog-based tests: statistics as formal expressions over exact rationals plus the '
+            'validity / undersampling control flow (CatEval.tla) model-checked by TLC; every bounded (forecast, observation) and '
+            'random larger ones evaluated by the real tests, with TLC stating status, presence, statistic and every '
+            'distribution entry (TraceCatEval)',
+            'TLC checks NeverSilentInfinity, UnsampledFlagged, EmptyObservationSignalled, EmptyCatalogsSkipped and '
+            'RatesAreMeanCounts for all forecasts of <=2 (quick) / <=3 (thorough, 54 180 states) synthetic catalogs of <=2 events on '
+            '2 cells x 2 magnitude bins and all observations of <=2 events. Each case is built as an in-memory forecast or a '
+            'streamed CSV (store on / off) and number, spatial, pseudo-likelihood, magnitude, resampled-magnitude and MLL tests are '
+            'run with the resampling draws recorded; TLC returns for each test the status, whether a result exists, and the '
+            'expression of the observed statistic and of every test-distribution entry (for the resampling tests: of every '
+            'recorded resampled histogram); these are interpreted at 50 digits and compared, and the reported quantiles must follow '
+            'the empirical rule of C09. Random forecasts of up to 200 catalogs follow the same path.',
+            'Numerical leaves (ln, log10, lgamma) against mpmath at rtol 1e-9. The MLL sign follows the API docstring / repository '
+            'tests. Trusted: vh/xr.py and the world construction shared with C13.',
+            '5/C10'),
 }
 
 NOT_YET = 'check not built yet in this round (specification planned in DESIGN.md section 5); not claimed until it exists'
